@@ -80,6 +80,7 @@ def allowed (s : St) : Op → Bool
   | .sSend => s.sKey == s.cKey
   | .cForge _ => false
   | .sForge _ => false
+  | .cRenewSame => false
   | _ => true
 
 def Quiescent : St → List Op → Prop
@@ -89,13 +90,13 @@ def Quiescent : St → List Op → Prop
 def allMsg (k : Nat) (l : List Item) : Prop := ∀ i ∈ l, i = .msg k
 
 /-- The four phases of a quiescent renewal. -/
-def QInv (s : St) : Prop :=
+def QInv (s : St) : Prop := s.pendFault = false ∧ (
   (s.outstanding = false ∧ s.sKey = s.cKey ∧ s.pend = none ∧ allMsg s.cKey s.c2s ∧ allMsg s.cKey s.s2c)
   ∨ (s.outstanding = true ∧ s.sKey = s.cKey ∧ s.pend = none ∧
       (∃ pre, s.c2s = pre ++ [.renewReq] ∧ allMsg s.cKey pre) ∧ allMsg s.cKey s.s2c)
   ∨ (s.outstanding = true ∧ s.sKey = s.cKey + 1 ∧ s.pend = none ∧ s.c2s = [] ∧
       (∃ pre, s.s2c = pre ++ [.renewResp (s.cKey + 1)] ∧ allMsg s.cKey pre))
-  ∨ (s.outstanding = true ∧ s.sKey = s.cKey + 1 ∧ s.pend = some (s.cKey + 1) ∧ s.c2s = [] ∧ s.s2c = [])
+  ∨ (s.outstanding = true ∧ s.sKey = s.cKey + 1 ∧ s.pend = some (s.cKey + 1) ∧ s.c2s = [] ∧ s.s2c = []))
 
 theorem allMsg_append {k : Nat} {l : List Item} (h : allMsg k l) : allMsg k (l ++ [.msg k]) := by
   intro i hi
@@ -109,6 +110,7 @@ theorem allMsg_tail {k : Nat} {i : Item} {l : List Item} (h : allMsg k (i :: l))
 theorem allMsg_nil {k : Nat} : allMsg k [] := by intro i hi; cases hi
 
 theorem init_qinv (b : Bool) : QInv (init b) := by
+  refine ⟨rfl, ?_⟩
   left; simp [init, allMsg]
 
 def isRejected : Out → Bool
@@ -118,114 +120,119 @@ def isRejected : Out → Bool
 /-- One allowed step keeps the phase invariant and rejects nothing. -/
 theorem qstep (s : St) (op : Op) (hI : QInv s) (ha : allowed s op = true) :
     QInv (step s op).1 ∧ isRejected (step s op).2 = false := by
+  obtain ⟨hf, hI⟩ := hI
   rcases hI with ⟨ho, hk, hp, hc, hs⟩ | ⟨ho, hk, hp, ⟨pre, hc, hpre⟩, hs⟩ | ⟨ho, hk, hp, hc, ⟨pre, hs, hpre⟩⟩ |
     ⟨ho, hk, hp, hc, hs⟩
   · -- phase 0: no renewal in progress
     cases op with
-    | cSend => exact ⟨Or.inl ⟨ho, hk, hp, allMsg_append hc, hs⟩, rfl⟩
-    | sSend => refine ⟨Or.inl ⟨ho, hk, hp, hc, ?_⟩, rfl⟩; simp only [step]; rw [hk]; exact allMsg_append hs
+    | cSend => exact ⟨⟨hf, Or.inl ⟨ho, hk, hp, allMsg_append hc, hs⟩⟩, rfl⟩
+    | sSend => refine ⟨⟨hf, Or.inl ⟨ho, hk, hp, hc, ?_⟩⟩, rfl⟩; simp only [step]; rw [hk]; exact allMsg_append hs
     | cRenew =>
       simp only [step, ho]
-      exact ⟨Or.inr (Or.inl ⟨rfl, hk, hp, ⟨s.c2s, rfl, hc⟩, hs⟩), rfl⟩
+      exact ⟨⟨hf, Or.inr (Or.inl ⟨rfl, hk, hp, ⟨s.c2s, rfl, hc⟩, hs⟩)⟩, rfl⟩
     | cForge e => simp [allowed] at ha
     | sForge e => simp [allowed] at ha
-    | cApply => simp only [step, hp]; exact ⟨Or.inl ⟨ho, hk, hp, hc, hs⟩, rfl⟩
+    | cRenewSame => simp [allowed] at ha
+    | cApply => simp only [step, hp, hf, Bool.false_eq_true, if_false]; exact ⟨⟨hf, Or.inl ⟨ho, hk, hp, hc, hs⟩⟩, rfl⟩
     | sStep =>
       simp only [step]
       cases hl : s.c2s with
-      | nil => exact ⟨Or.inl ⟨ho, hk, hp, by rw [hl]; exact allMsg_nil, hs⟩, rfl⟩
+      | nil => exact ⟨⟨hf, Or.inl ⟨ho, hk, hp, by rw [hl]; exact allMsg_nil, hs⟩⟩, rfl⟩
       | cons i rest =>
         have hi : i = .msg s.cKey := hc i (by rw [hl]; simp)
         subst hi
         have hrest : allMsg s.cKey rest := allMsg_tail (by rw [← hl]; exact hc)
         simp only [implAccepts, hk, beq_self_eq_true, Bool.or_true, if_true]
-        exact ⟨Or.inl ⟨ho, rfl, hp, hrest, hs⟩, rfl⟩
+        exact ⟨⟨hf, Or.inl ⟨ho, rfl, hp, hrest, hs⟩⟩, rfl⟩
     | cStep =>
       simp only [step]
       cases hl : s.s2c with
-      | nil => exact ⟨Or.inl ⟨ho, hk, hp, hc, by rw [hl]; exact allMsg_nil⟩, rfl⟩
+      | nil => exact ⟨⟨hf, Or.inl ⟨ho, hk, hp, hc, by rw [hl]; exact allMsg_nil⟩⟩, rfl⟩
       | cons i rest =>
         have hi : i = .msg s.cKey := hs i (by rw [hl]; simp)
         subst hi
         have hrest : allMsg s.cKey rest := allMsg_tail (by rw [← hl]; exact hs)
         simp only [implAccepts, beq_self_eq_true, Bool.or_true, if_true]
-        exact ⟨Or.inl ⟨ho, hk, hp, hc, hrest⟩, rfl⟩
+        exact ⟨⟨hf, Or.inl ⟨ho, hk, hp, hc, hrest⟩⟩, rfl⟩
   · -- phase A: Renew request on its way to the server
     cases op with
     | cSend => simp [allowed, ho] at ha
     | sSend =>
-      refine ⟨Or.inr (Or.inl ⟨ho, hk, hp, ⟨pre, hc, hpre⟩, ?_⟩), rfl⟩
+      refine ⟨⟨hf, Or.inr (Or.inl ⟨ho, hk, hp, ⟨pre, hc, hpre⟩, ?_⟩)⟩, rfl⟩
       simp only [step]; rw [hk]; exact allMsg_append hs
-    | cRenew => simp only [step, ho, if_true]; exact ⟨Or.inr (Or.inl ⟨ho, hk, hp, ⟨pre, hc, hpre⟩, hs⟩), rfl⟩
+    | cRenew => simp only [step, ho, if_true]; exact ⟨⟨hf, Or.inr (Or.inl ⟨ho, hk, hp, ⟨pre, hc, hpre⟩, hs⟩)⟩, rfl⟩
     | cForge e => simp [allowed] at ha
     | sForge e => simp [allowed] at ha
-    | cApply => simp only [step, hp]; exact ⟨Or.inr (Or.inl ⟨ho, hk, hp, ⟨pre, hc, hpre⟩, hs⟩), rfl⟩
+    | cRenewSame => simp [allowed] at ha
+    | cApply => simp only [step, hp, hf, Bool.false_eq_true, if_false]; exact ⟨⟨hf, Or.inr (Or.inl ⟨ho, hk, hp, ⟨pre, hc, hpre⟩, hs⟩)⟩, rfl⟩
     | sStep =>
       simp only [step]
       cases pre with
       | nil =>
         simp only [List.nil_append] at hc
         rw [hc]
-        refine ⟨Or.inr (Or.inr (Or.inl ⟨ho, by simp [hk], hp, rfl, ⟨s.s2c, ?_, hs⟩⟩)), rfl⟩
+        refine ⟨⟨hf, Or.inr (Or.inr (Or.inl ⟨ho, by simp [hk], hp, rfl, ⟨s.s2c, ?_, hs⟩⟩))⟩, rfl⟩
         simp [hk]
       | cons i rest =>
         have hi : i = .msg s.cKey := hpre i (by simp)
         subst hi
         rw [hc]
         simp only [List.cons_append, implAccepts, hk, beq_self_eq_true, Bool.or_true, if_true]
-        exact ⟨Or.inr (Or.inl ⟨ho, rfl, hp, ⟨rest, rfl, allMsg_tail hpre⟩, hs⟩), rfl⟩
+        exact ⟨⟨hf, Or.inr (Or.inl ⟨ho, rfl, hp, ⟨rest, rfl, allMsg_tail hpre⟩, hs⟩)⟩, rfl⟩
     | cStep =>
       simp only [step]
       cases hl : s.s2c with
-      | nil => exact ⟨Or.inr (Or.inl ⟨ho, hk, hp, ⟨pre, hc, hpre⟩, by rw [hl]; exact allMsg_nil⟩), rfl⟩
+      | nil => exact ⟨⟨hf, Or.inr (Or.inl ⟨ho, hk, hp, ⟨pre, hc, hpre⟩, by rw [hl]; exact allMsg_nil⟩)⟩, rfl⟩
       | cons i rest =>
         have hi : i = .msg s.cKey := hs i (by rw [hl]; simp)
         subst hi
         have hrest : allMsg s.cKey rest := allMsg_tail (by rw [← hl]; exact hs)
         simp only [implAccepts, beq_self_eq_true, Bool.or_true, if_true]
-        exact ⟨Or.inr (Or.inl ⟨ho, hk, hp, ⟨pre, hc, hpre⟩, hrest⟩), rfl⟩
+        exact ⟨⟨hf, Or.inr (Or.inl ⟨ho, hk, hp, ⟨pre, hc, hpre⟩, hrest⟩)⟩, rfl⟩
   · -- phase B: OPN response on its way to the client
     cases op with
     | cSend => simp [allowed, ho] at ha
     | sSend => simp [allowed, hk] at ha
     | cRenew =>
       simp only [step, ho, if_true]
-      exact ⟨Or.inr (Or.inr (Or.inl ⟨ho, hk, hp, hc, ⟨pre, hs, hpre⟩⟩)), rfl⟩
+      exact ⟨⟨hf, Or.inr (Or.inr (Or.inl ⟨ho, hk, hp, hc, ⟨pre, hs, hpre⟩⟩))⟩, rfl⟩
     | cForge e => simp [allowed] at ha
     | sForge e => simp [allowed] at ha
+    | cRenewSame => simp [allowed] at ha
     | cApply =>
-      simp only [step, hp]
-      exact ⟨Or.inr (Or.inr (Or.inl ⟨ho, hk, hp, hc, ⟨pre, hs, hpre⟩⟩)), rfl⟩
+      simp only [step, hp, hf, Bool.false_eq_true, if_false]
+      exact ⟨⟨hf, Or.inr (Or.inr (Or.inl ⟨ho, hk, hp, hc, ⟨pre, hs, hpre⟩⟩))⟩, rfl⟩
     | sStep =>
       simp only [step, hc]
-      exact ⟨Or.inr (Or.inr (Or.inl ⟨ho, hk, hp, hc, ⟨pre, hs, hpre⟩⟩)), rfl⟩
+      exact ⟨⟨hf, Or.inr (Or.inr (Or.inl ⟨ho, hk, hp, hc, ⟨pre, hs, hpre⟩⟩))⟩, rfl⟩
     | cStep =>
       simp only [step]
       cases pre with
       | nil =>
         simp only [List.nil_append] at hs
         rw [hs]
-        exact ⟨Or.inr (Or.inr (Or.inr ⟨ho, hk, rfl, hc, rfl⟩)), rfl⟩
+        exact ⟨⟨hf, Or.inr (Or.inr (Or.inr ⟨ho, hk, rfl, hc, rfl⟩))⟩, rfl⟩
       | cons i rest =>
         have hi : i = .msg s.cKey := hpre i (by simp)
         subst hi
         rw [hs]
         simp only [List.cons_append, implAccepts, beq_self_eq_true, Bool.or_true, if_true]
-        exact ⟨Or.inr (Or.inr (Or.inl ⟨ho, hk, hp, hc, ⟨rest, rfl, allMsg_tail hpre⟩⟩)), rfl⟩
+        exact ⟨⟨hf, Or.inr (Or.inr (Or.inl ⟨ho, hk, hp, hc, ⟨rest, rfl, allMsg_tail hpre⟩⟩))⟩, rfl⟩
   · -- phase C: response received, waiting for the session task to apply it
     cases op with
     | cSend => simp [allowed, ho] at ha
     | sSend => simp [allowed, hk] at ha
     | cRenew =>
       simp only [step, ho, if_true]
-      exact ⟨Or.inr (Or.inr (Or.inr ⟨ho, hk, hp, hc, hs⟩)), rfl⟩
+      exact ⟨⟨hf, Or.inr (Or.inr (Or.inr ⟨ho, hk, hp, hc, hs⟩))⟩, rfl⟩
     | cForge e => simp [allowed] at ha
     | sForge e => simp [allowed] at ha
+    | cRenewSame => simp [allowed] at ha
     | cApply =>
-      simp only [step, hp]
-      exact ⟨Or.inl ⟨rfl, hk, rfl, by rw [hc]; exact allMsg_nil, by rw [hs]; exact allMsg_nil⟩, rfl⟩
-    | sStep => simp only [step, hc]; exact ⟨Or.inr (Or.inr (Or.inr ⟨ho, hk, hp, hc, hs⟩)), rfl⟩
-    | cStep => simp only [step, hs]; exact ⟨Or.inr (Or.inr (Or.inr ⟨ho, hk, hp, hc, hs⟩)), rfl⟩
+      simp only [step, hp, hf, Bool.false_eq_true, if_false]
+      exact ⟨⟨rfl, Or.inl ⟨rfl, hk, rfl, by rw [hc]; exact allMsg_nil, by rw [hs]; exact allMsg_nil⟩⟩, rfl⟩
+    | sStep => simp only [step, hc]; exact ⟨⟨hf, Or.inr (Or.inr (Or.inr ⟨ho, hk, hp, hc, hs⟩))⟩, rfl⟩
+    | cStep => simp only [step, hs]; exact ⟨⟨hf, Or.inr (Or.inr (Or.inr ⟨ho, hk, hp, hc, hs⟩))⟩, rfl⟩
 
 /-- **Partial theorem** (the part of C14 that holds): for EVERY schedule of any length that obeys the
 quiescence discipline — any number of renewals, any interleaving of sends, deliveries and key
